@@ -67,6 +67,9 @@ def validate(ctx, pid_mode, runs):
             elif ev.get("ev") == "after":
                 kindsig = "residue" if ev.get("pending", 0) else "subscriber-not-ended"
                 what = f"at quiescence: pending map holds {ev.get('pending')} entries, subscriber ended = {ev.get('sub_ended')}"
+            elif ev.get("ev") == "nsent":
+                kindsig = "duplicate-id"
+                what = f"a notify was sent with request id {ev.get('id')}, which is also used by another frame on this connection"
             elif ev.get("ev") == "sent":
                 kindsig = "duplicate-id"
                 what = f"request id {ev.get('id')} issued twice on one connection"
